@@ -73,6 +73,19 @@ def install():
         return orig_abort(self, run_id)
 
     irr.IdleReleaseDecorator._abort_inner_run = abort_probe
+
+    orig_release = irr.IdleReleaseDecorator._release_idle_handler
+
+    async def release_probe(self, run_id, *a, **k):
+        o = OBS["cur"]
+        t0 = vclock.vnow()
+        try:
+            return await orig_release(self, run_id, *a, **k)
+        finally:
+            if o is not None:
+                o.setdefault("release_attempts", []).append((t0, vclock.vnow()))
+
+    irr.IdleReleaseDecorator._release_idle_handler = release_probe
     _probes["installed"] = True
 
 
@@ -182,7 +195,7 @@ def run_scenario(scn):
         shutil.rmtree(d, ignore_errors=True)
 
 
-def gen_program(rnd, *, n=None, waiter_timeout=None, retry_delay=None):
+def gen_program(rnd, *, n=None, waiter_timeout=None, retry_delay=None, chain=False):
     """wait-family program for the server: n items wait for Answer(key=v); optional waiter timeout; optional step that
     fails once and retries after `retry_delay`."""
     n = n or rnd.randint(1, 3)
@@ -194,6 +207,10 @@ def gen_program(rnd, *, n=None, waiter_timeout=None, retry_delay=None):
         {"name": "start", "in": ["Go"], "nw": 1, "acts": [{"k": "send", "type": "EvD", "items": items}, {"k": "ret", "type": None}], "declare": ["EvD"]},
         {"name": "ask", "in": ["EvD"], "nw": rnd.randint(1, 3), "acts": [{"k": "sleep", "d": {"from": "lat"}}, wait, {"k": "ret", "type": "EvC"}]},
     ]
+    if chain:
+        # two waits one after the other: the second idle period starts when the first wait ends (answer or timeout)
+        steps[1]["acts"][-1] = {"k": "ret", "type": "EvE"}
+        steps.insert(2, {"name": "ask2", "in": ["EvE"], "nw": steps[1]["nw"], "acts": [dict(wait, wid="w2-{uid}"), {"k": "ret", "type": "EvC"}]})
     total = n
     if retry_delay is not None:
         delays = retry_delay if isinstance(retry_delay, list) else [retry_delay]
